@@ -198,7 +198,8 @@ def run_shard(i, n, tier, seed, m):
     ncases = (4000 if tier == "quick" else 60000) // n
     prev_case = None
     for k in range(ncases):
-        case = D.random_case(rng, profile="plain", hostile=(k % 3 == 0), group_p=0.5)
+        # (T(v, ref) / C(v, Treatment(ref)) are treatment codings with a chosen reference: in the judged domain)
+        case = D.random_case(rng, profile="plain", hostile=(k % 3 == 0), group_p=0.5, with_refs=(k % 2 == 0))
         if k % 4 == 3 and prev_case is not None and LAST.get("built"):
             # the same formula text on other data (other levels), then look at the earlier design again
             case = {**prev_case, "frame": case["frame"]}
